@@ -289,6 +289,25 @@ def gen_cmd(rng, ctr, name, depth, prof, reserved=()):
     return c
 
 
+NEXT_HEADINGS = ["Nh1z", "Nh2z", "Hd1z"]
+
+
+def add_headings(rng, c, p=0.5):
+    """round 3: Command::next_help_heading between the Command::arg calls (a heading, or None to reset) and
+    Command::subcommand_help_heading, at every level"""
+    if c["args"] and rng.random() < p:
+        for a in c["args"]:
+            r = rng.random()
+            if r < 0.3:
+                a["next_heading"] = rng.choice(NEXT_HEADINGS)
+            elif r < 0.38:
+                a["next_heading"] = None
+    if c["subs"] and rng.random() < p:
+        c["sub_heading"] = rng.choice(["Sh1z", "Sh2z words", "Options"])
+    for sc in c["subs"]:
+        add_headings(rng, sc, p)
+
+
 def add_usage_forms(rng, ctr, c, prof):
     """round 3: argument groups (required or not), `requires` rules between arguments and towards groups, the
     settings that change the form of the usage line, subcommand_value_name.  Members of groups and targets of
@@ -358,7 +377,11 @@ def cmd_sx(c):
         it.append("(x-order %d)" % c["order"])
     if c.get("sub_valname"):
         it.append("(x-sub-valname %s)" % hexs(c["sub_valname"]))
+    if c.get("sub_heading"):
+        it.append("(x-sub-heading %s)" % hexs(c["sub_heading"]))
     for a in c["args"]:
+        if "next_heading" in a:       # Command::next_help_heading called before this argument is added
+            it.append("(x-next-heading%s)" % ("" if a["next_heading"] is None else " " + hexs(a["next_heading"])))
         it.append("(arg %s %s)" % (hexs(a["id"]), " ".join(a["items"])))
     for g in c.get("groups", []):
         gi = [hexs(g["id"]), "(args %s)" % " ".join(hexs(x) for x in g["args"])]
@@ -429,11 +452,28 @@ def gen_usage_forms(tier, rng, n):
                 "p_group": rng.choice([0.3, 0.9]), "p_requires": rng.choice([0.2, 0.6])}
         c = gen_cmd(rng, ctr, "p", rng.choice([0, 1, 1, 2]), prof)
         add_usage_forms(rng, ctr, c, prof)
+        if rng.random() < 0.5:
+            add_headings(rng, c)
         sx = cmd_sx(c)
         paths = all_paths(c)
         for wh in ["usage", rng.choice(["short", "long"]),
                    which_sx(rng.choice(["flag-h", "flag-help", "sub-help"]), rng.choice(paths))]:
             cases.append(case_sx(sx, rng.choice([0, 40, 80, 100, 200]), wh))
+    return cases
+
+
+def gen_headings(tier, rng, n):
+    """round 3: next_help_heading / subcommand_help_heading at every level x short / long / help at a level"""
+    cases = []
+    for _ in range(n):
+        ctr = Ctr()
+        c = gen_cmd(rng, ctr, "p", rng.choice([0, 1, 1, 2]), {"nflag": [1, 2, 3], "nopt": [1, 2], "npos": [0, 1, 2], "nsub": [0, 1, 2, 3],
+                                                               "p_heading": rng.choice([0.0, 0.3]), "p_nohelp": 0.1})
+        add_headings(rng, c, 0.9)
+        sx = cmd_sx(c)
+        paths = all_paths(c)
+        for wh in ["short", "long", which_sx(rng.choice(["flag-h", "flag-help", "sub-help"]), rng.choice(paths))]:
+            cases.append(case_sx(sx, rng.choice([0, 40, 80, 100]), wh))
     return cases
 
 
@@ -653,6 +693,7 @@ def dec_arg(l):
 
 def dec_cmd(l):
     c = {"name": s_(l[0]), "args": [], "subs": [], "sets": []}
+    current_heading = None        # Command::next_help_heading: applies to the arguments added afterwards
     for it in l[1:]:
         h, r = it[0], it[1:]
         if h == "about":
@@ -675,8 +716,15 @@ def dec_cmd(l):
             c["next_line"] = True
         elif h == "x-order":
             c["order"] = int(r[0])
+        elif h == "x-next-heading":
+            current_heading = s_(r[0]) if r else None
+        elif h == "x-sub-heading":
+            c["sub_heading"] = s_(r[0])
         elif h == "arg":
-            c["args"].append(dec_arg(r))
+            a = dec_arg(r)
+            if "heading" not in a and current_heading is not None:
+                a["heading"] = current_heading
+            c["args"].append(a)
         elif h == "group":
             g = {"id": s_(r[0]), "args": [], "required": False, "requires": []}
             for e in r[1:]:
@@ -924,9 +972,9 @@ def oracle(case, impl):
                 if MARKER.match(mk) and mk in text:
                     return "hidden subcommand %s: %r appears" % (s["name"], mk)
         else:
-            blk = secs.get("Commands")
+            blk = secs.get(level.get("sub_heading") or "Commands")
             if blk is None or not re.search(r"(?m)^  %s(?![\w-])" % re.escape(s["name"]), blk):
-                return "visible subcommand %s is not listed under Commands" % s["name"]
+                return "visible subcommand %s is not listed under %s" % (s["name"], level.get("sub_heading") or "Commands")
     return None
 
 
@@ -1079,7 +1127,7 @@ def describe(cases, name):
               "(x-hide-pv)", "hide", "disable_help_flag", "(sub ", "(short_flag", "(x-long-help", "reqeq", "last",
               "global", "(env ", "(x-hide-env)", "(x-hide-env-values)", "(default ", "(x-hide-default)", "(alias ", " v)", "(salias ",
               "(group ", "(required)", "(requires ", "(requires_if ", "subcommand_negates_reqs", "args_conflicts_with_subcommands",
-              "subcommand_required", "allow_external_subcommands", "(x-sub-valname", "(x-template"):
+              "subcommand_required", "allow_external_subcommands", "(x-sub-valname", "(x-template", "(x-next-heading", "(x-sub-heading"):
         d["has " + k] = sum(1 for c in cases if k in c)
     ws = [int(re.search(r"\(width (\d+)\)", c).group(1)) for c in cases if "(width" in c]
     d["widths distinct"] = len(set(ws))
@@ -1096,6 +1144,7 @@ def streams(tier, rng):
     bnd = gen_boundary(tier, rng)
     usf = gen_usage_forms(tier, rng, 400 if q else 8000)
     tpt = gen_template_tags(tier, rng, 300 if q else 6000)
+    hdg = gen_headings(tier, rng, 200 if q else 5000)
     out = [
         Stream("help-random", rnd, oracle=oracle, area="help", project=project, nontrivial=nontrivial,
                describe=describe(rnd, "random")),
@@ -1109,6 +1158,8 @@ def streams(tier, rng):
                describe=describe(bnd, "boundary")),
         Stream("help-usage-forms", usf, oracle=oracle, area="help", project=project, nontrivial=nontrivial,
                describe=describe(usf, "usage-forms")),
+        Stream("help-headings", hdg, oracle=oracle, area="help", project=project, nontrivial=nontrivial,
+               describe=describe(hdg, "headings")),
         Stream("help-template-tags", tpt, oracle=template_tags_oracle, area="help", project=project, nontrivial=nontrivial,
                describe=describe(tpt, "template-tags")),
         Stream("help-templates", gen_templates(tier, rng, 200 if q else 4000), oracle=template_oracle, area=None,
